@@ -70,7 +70,6 @@ fn c18_suffix_tables() {
     if k > 0 {
         assert!(hz.as_bytes()[0] == letter && it.as_bytes()[0] == letter && ch.as_bytes()[0] == letter);
     }
-    assert!(ScaleFormat::CharsThroughput.bytes_format() as usize == BytesFormat::Decimal as usize);
     kani::cover!(k == 5);
 }
 
@@ -199,3 +198,103 @@ fn c18_truncation_1_4() {
     truncation::<4>(4)
 }
 
+
+// ---- throughput: the prefix of non-byte counters is always decimal, bytes follow the configured format
+
+fn to_string_one<T: std::fmt::Display + ?Sized>(_v: &T) -> String {
+    // the number itself is not the subject here (digit printing is outside the claim): always "1"
+    let mut s = String::with_capacity(1);
+    s.push('1');
+    s
+}
+
+// @cell props=C18 tier=quick kind=attempt timeout=1200 mem=20 cls=K
+// @desc DisplayThroughput through the real Display impl (write! into a String; the number printer stubbed to "1"):
+// @desc for a symbolic counter kind, count (u32), duration (u32 ps, non-zero) and byte format, the unit printed is the
+// @desc one of the largest 1000^k (items, chars, cycles - whatever byte format is configured) resp. 1000^k or 1024^k
+// @desc (bytes, as configured) not exceeding the rate
+#[kani::proof]
+#[kani::unwind(12)]
+#[kani::stub(<f64 as std::string::ToString>::to_string, to_string_one)]
+fn c18_throughput_unit() {
+    use std::fmt::Write;
+    let k: u8 = kani::any();
+    kani::assume(k < 4);
+    let kind = KnownCounterKind::ALL[k as usize];
+    let count: u32 = kani::any();
+    let picos: u32 = kani::any();
+    kani::assume(picos != 0 && count != 0);
+    let binary: bool = kani::any();
+    let bf = if binary { BytesFormat::Binary } else { BytesFormat::Decimal };
+    let counter = AnyCounter::known(kind, count as u64);
+    let dt = DisplayThroughput { counter: &counter, picos: picos as f64, bytes_format: bf };
+    let mut out = String::new();
+    write!(&mut out, "{}", dt).unwrap();
+    // expected unit
+    let rate = count as f64 * (1e12 / picos as f64);
+    let is_bytes = matches!(kind, KnownCounterKind::Bytes);
+    let eff = if is_bytes { bf } else { BytesFormat::Decimal };
+    let (_, scale) = scale_value(rate, eff);
+    let fmt = match kind {
+        KnownCounterKind::Bytes => ScaleFormat::BytesThroughput(bf),
+        KnownCounterKind::Chars => ScaleFormat::CharsThroughput,
+        KnownCounterKind::Cycles => ScaleFormat::CyclesThroughput,
+        KnownCounterKind::Items => ScaleFormat::ItemsThroughput,
+    };
+    let suffix = scale.suffix(fmt);
+    let o = out.as_bytes();
+    assert!(o.len() == 2 + suffix.len());
+    assert!(o[0] == b'1' && o[1] == b' ');
+    let mism = o[2] != suffix.as_bytes()[0];
+    kani::cover!(mism && count < 1000 && picos < 1000);
+    kani::cover!(mism && count < 100000 && picos < 100000);
+    kani::cover!(mism && scale as usize == 0);
+    kani::cover!(mism && scale as usize == 1);
+    kani::cover!(mism && scale as usize == 2);
+    kani::cover!(mism && scale as usize == 3);
+    kani::cover!(mism && scale as usize == 4);
+    kani::cover!(mism && scale as usize == 5);
+    kani::cover!(mism && o[2] == b'K');
+    kani::cover!(mism && o[2] == b'M');
+    kani::cover!(mism && o[2] == b'i');
+    kani::cover!(mism && o[2] == b'B');
+    kani::cover!(mism && !is_bytes && !binary && count == 1);
+    let mut i = 0;
+    while i < suffix.len() {
+        let same = o[2 + i] == suffix.as_bytes()[i];
+        assert!(same);
+        i += 1;
+    }
+    kani::cover!(!is_bytes && binary && scale as usize == 1);
+    kani::cover!(is_bytes && binary && scale as usize == 2);
+}
+
+// @cell props=DBG tier=thorough kind=attempt timeout=600 mem=20 cls=K
+// @desc debug
+#[kani::proof]
+#[kani::unwind(12)]
+#[kani::stub(<f64 as std::string::ToString>::to_string, to_string_one)]
+fn dbg_throughput() {
+    use std::fmt::Write;
+    let count: u32 = kani::any();
+    let picos: u32 = kani::any();
+    kani::assume(count >= 1 && count <= 3 && picos >= 1 && picos <= 3);
+    let counter = AnyCounter::known(KnownCounterKind::Items, count as u64);
+    let dt = DisplayThroughput { counter: &counter, picos: picos as f64, bytes_format: BytesFormat::Decimal };
+    let mut out = String::new();
+    write!(&mut out, "{}", dt).unwrap();
+    let o = out.as_bytes();
+    let rate = count as f64 * (1e12 / picos as f64);
+    let (_, scale) = scale_value(rate, BytesFormat::Decimal);
+    let suffix = scale.suffix(ScaleFormat::ItemsThroughput);
+    assert!(o.len() == 2 + suffix.len(), "len");
+    if count == 1 && picos == 1 { assert!(o[2] == suffix.as_bytes()[0], "1/1"); }
+    if count == 1 && picos == 2 { assert!(o[2] == suffix.as_bytes()[0], "1/2"); }
+    if count == 1 && picos == 3 { assert!(o[2] == suffix.as_bytes()[0], "1/3"); }
+    if count == 2 && picos == 1 { assert!(o[2] == suffix.as_bytes()[0], "2/1"); }
+    if count == 3 && picos == 1 { assert!(o[2] == suffix.as_bytes()[0], "3/1"); }
+    if count == 3 && picos == 2 { assert!(o[2] == suffix.as_bytes()[0], "3/2"); }
+    if count == 1 && picos == 2 { assert!(o[2] == b'G', "1/2 is G"); }
+    if count == 1 && picos == 2 { assert!(o[2] == b'T', "1/2 is T"); }
+    kani::cover!(true);
+}
